@@ -901,6 +901,12 @@ func (in *interp) flatten(v value, sig *strings.Builder, out *[]*Term, depth int
 		sig.WriteString(")")
 	case nil:
 		sig.WriteString("nil;")
+	case tuple:
+		sig.WriteString("(")
+		for _, e := range x {
+			in.flatten(e, sig, out, depth+1)
+		}
+		sig.WriteString(")")
 	case *ssa.Function, *closure:
 		sig.WriteString("fn;")
 	case opaque:
@@ -1065,7 +1071,15 @@ func (in *interp) runStub(fr *frame, fi *fnInfo, args []value) value {
 			for _, c := range []byte(sb.String()) {
 				out = append(out, in.ts.BV(uint64(c), 8))
 			}
-			return out
+			return mk(func(t types.Type, i int) value {
+				if _, isSlice := t.Underlying().(*types.Slice); isSlice {
+					return append([]value{}, out...)
+				}
+				if isString(t) {
+					return sb.String()
+				}
+				return in.zero(t)
+			})
 		}
 		parts[0] = "ufinj"
 		fallthrough
